@@ -31,6 +31,8 @@ use common::Out;
 /// the request being executed: printed by the panic hook, so that even a non-unwinding panic
 /// (an abort: panic inside a `Drop` during unwinding, …) names the input that caused it
 static CUR: std::sync::Mutex<String> = std::sync::Mutex::new(String::new());
+/// set while an oracle provokes a panic on purpose (a caller's iterator that fails by panicking)
+pub static EXPECTED_PANIC: std::sync::atomic::AtomicBool = std::sync::atomic::AtomicBool::new(false);
 
 pub fn exec_line(line: &str, out: &mut Out) {
     if let Ok(mut c) = CUR.lock() { c.clear(); c.push_str(line); }
@@ -100,6 +102,7 @@ fn real_main() {
     let seed: u64 = args[4].parse().unwrap_or(0);
     let workdir = &args[5];
     std::panic::set_hook(Box::new(|_| {
+        if EXPECTED_PANIC.load(std::sync::atomic::Ordering::SeqCst) { return; }
         if let Ok(c) = CUR.try_lock() { eprintln!("PANIC-CASE: {}", c); }
     }));
     let mut out = Out::new(prop, workdir, seed);
